@@ -12,7 +12,9 @@ package main
 //                of direction x with lower bound lo <= hi must have been set and not CERTAINLY been renewed / cleared
 //                before it expired (an operation that ended before lo certainly came first);
 //   on time      a deadline that was not possibly renewed / cleared before it fired (no such operation began before
-//                due + margin) must have closed the connection by due + margin.
+//                due + margin) must have closed the connection by due + margin;
+//   on time, 2   the same with a quarter of the grid unit instead of the margin counts only if it is violated in
+//                EVERY round (the unit doubles from round to round: a lateness that grows with the grid is no hiccup).
 
 import (
 	"fmt"
@@ -59,14 +61,15 @@ type obsOp struct {
 }
 
 type observation struct {
-	Ops       []obsOp `json:"ops"`
-	EndB      int64   `json:"end_b"`
-	EndA      int64   `json:"end_a"`
-	EndClosed bool    `json:"end_closed"`
-	Closed    bool    `json:"close_notified"`
-	Cause     string  `json:"cause"` // rto | wto | user | other:<err>
-	Tau       int64   `json:"close_time"`
-	Infra     string  `json:"infra,omitempty"`
+	Ops           []obsOp `json:"ops"`
+	EndB          int64   `json:"end_b"`
+	EndA          int64   `json:"end_a"`
+	EndClosed     bool    `json:"end_closed"`
+	Closed        bool    `json:"close_notified"`
+	Cause         string  `json:"cause"` // rto | wto | user | other:<err>
+	Tau           int64   `json:"close_time"`
+	Notifications int     `json:"close_notifications"`
+	Infra         string  `json:"infra,omitempty"`
 }
 
 type problem struct {
@@ -116,10 +119,13 @@ func (t *tinst) dueHi() int64 {
 }
 
 // oracle: the interval rules, computed directly from the history.
-func oracle(o *observation, margin int64) []problem {
+func oracle(o *observation, margin, guard int64) []problem {
 	var ps []problem
 	if o.Infra != "" {
 		return []problem{{"infra", "infra", o.Infra}}
+	}
+	if o.Notifications > 1 {
+		ps = append(ps, problem{"oracle", "second-close-notification", fmt.Sprintf("%d close notifications for one connection (first cause %s)", o.Notifications, o.Cause)})
 	}
 	n := len(o.Ops)
 	k := -1 // first operation that found the connection closed; n = the final look
@@ -132,42 +138,30 @@ func oracle(o *observation, margin int64) []problem {
 	if k < 0 && o.EndClosed {
 		k = n
 	}
-	lim := k
+	// the operation that was the first to find the connection closed may itself have taken effect before the close
+	// (a deadline in the past fires at once): its deadlines can explain the close, but they create no obligation
+	lim := k + 1
 	if k < 0 {
 		lim = n
 	}
-	// timers set by the operations that came before the close, and what may have cancelled them
-	var ts []*tinst
-	for m := 0; m < lim && m < n; m++ {
-		op := &o.Ops[m]
-		for _, e := range op.Eff {
-			switch e.Kind {
-			case "set":
-				for _, t := range ts {
-					if t.dir == e.Dir {
-						t.canc = append(t.canc, canceller{m, "renew", op.B, op.A})
-					}
-				}
-				ts = append(ts, &tinst{j: m, dir: e.Dir, lo: e.Lo, hi: e.Hi, armA: op.A})
-			case "clear":
-				for _, t := range ts {
-					if t.dir == e.Dir {
-						t.canc = append(t.canc, canceller{m, e.Why, op.B, op.A})
-					}
-				}
-			case "close":
-				for _, t := range ts {
-					t.canc = append(t.canc, canceller{m, "close", op.B, op.A})
-				}
-			}
-		}
-	}
+	ts := timersOf(o, lim)
 	onTime := func(loC int64, word string) {
 		for _, t := range ts {
 			due := t.dueHi()
-			if !t.possiblyCancelledBefore(due+margin) && loC >= due+margin {
+			if t.j != k && !t.possiblyCancelledBefore(due+margin) && loC >= due+margin {
 				ps = append(ps, problem{"oracle", word + ":" + dirName[t.dir],
 					fmt.Sprintf("the %s deadline set by operation %d (%s, due at %d us) was neither renewed nor cleared, but the connection was still open at %d us (%d us after it was due)",
+						dirName[t.dir], t.j, o.Ops[t.j].Name, due, loC, loC-due)})
+				return
+			}
+		}
+		// late by more than a quarter of a grid unit, but within the margin: a scheduling hiccup unless it happens
+		// in every round (the unit doubles from round to round)
+		for _, t := range ts {
+			due := t.dueHi()
+			if t.j != k && !t.possiblyCancelledBefore(due+guard) && loC >= due+guard {
+				ps = append(ps, problem{"soft", "late-in-every-round:" + dirName[t.dir],
+					fmt.Sprintf("the %s deadline set by operation %d (%s, due at %d us) was neither renewed nor cleared, but the connection was still open at %d us, %d us after it was due (more than a quarter of the grid unit; seen in every one of the rounds, whose units were doubled each time)",
 						dirName[t.dir], t.j, o.Ops[t.j].Name, due, loC, loC-due)})
 				return
 			}
@@ -179,7 +173,7 @@ func oracle(o *observation, margin int64) []problem {
 		return ps
 	}
 	if !o.Closed {
-		return append(ps, problem{"mismatch", "close-not-notified", "the connection was found closed but no close notification arrived"})
+		return append(ps, problem{"oracle", "close-not-notified", "the connection was found closed but no close notification arrived within 3 s"})
 	}
 	loC := int64(0)
 	if k > 0 {
@@ -235,11 +229,43 @@ func oracle(o *observation, margin int64) []problem {
 		if k >= n || !hasClose(&o.Ops[k]) {
 			ps = append(ps, problem{"oracle", "closed-without-cause", "the connection was closed with a nil error although the history contains no Close at that point"})
 		}
-		onTime(o.Ops[minInt(k, n-1)].B, "late")
+		if n > 0 {
+			onTime(o.Ops[minInt(k, n-1)].B, "late")
+		}
 	default:
 		ps = append(ps, problem{"infra", "unexpected-close-cause", "close cause " + o.Cause})
 	}
 	return ps
+}
+
+// timersOf: the deadlines set by the first lim operations, each with the later operations that renew / clear it
+func timersOf(o *observation, lim int) []*tinst {
+	var ts []*tinst
+	for m := 0; m < lim && m < len(o.Ops); m++ {
+		op := &o.Ops[m]
+		for _, e := range op.Eff {
+			switch e.Kind {
+			case "set":
+				for _, t := range ts {
+					if t.dir == e.Dir {
+						t.canc = append(t.canc, canceller{m, "renew", op.B, op.A})
+					}
+				}
+				ts = append(ts, &tinst{j: m, dir: e.Dir, lo: e.Lo, hi: e.Hi, armA: op.A})
+			case "clear":
+				for _, t := range ts {
+					if t.dir == e.Dir {
+						t.canc = append(t.canc, canceller{m, e.Why, op.B, op.A})
+					}
+				}
+			case "close":
+				for _, t := range ts {
+					t.canc = append(t.canc, canceller{m, "close", op.B, op.A})
+				}
+			}
+		}
+	}
+	return ts
 }
 
 func hasClose(op *obsOp) bool {
@@ -284,7 +310,7 @@ type mrun struct {
 	final [2]proj
 }
 
-func modelRun(m *hx.Model, o *observation, upper bool) (*mrun, string) {
+func modelRun(m *hx.Model, o *observation, upper bool, margin int64) (*mrun, string) {
 	lines := 0
 	m.Send("init %d", origin)
 	for i := range o.Ops {
@@ -302,6 +328,10 @@ func modelRun(m *hx.Model, o *observation, upper bool) (*mrun, string) {
 	end := o.EndB
 	if upper {
 		end = o.EndA
+	}
+	if o.EndClosed {
+		// the connection is closed: whatever closes it in the model must have happened by now (plus the margin)
+		end = o.EndA + margin
 	}
 	m.Send("at %d", end)
 	lines++
@@ -355,15 +385,31 @@ func sameShape(a, b proj) bool {
 }
 
 // compare: the eager model, run once with every operation at the beginning and once at the end of its interval.
-func compare(m *hx.Model, o *observation, margin int64) []problem {
+func compare(m *hx.Model, o *observation, margin, guard int64) []problem {
 	if o.Infra != "" {
 		return nil
 	}
-	lo, e1 := modelRun(m, o, false)
+	// an operation that begins less than `guard` after a deadline became due races with the timer's callback:
+	// the eager model cannot tell who comes first
+	for i := range o.Ops {
+		for _, t := range timersOf(o, i) {
+			if t.certainlyCancelled() != nil {
+				continue
+			}
+			dueLo, dueHi := t.lo, t.dueHi()
+			if o.Ops[t.j].B > dueLo {
+				dueLo = o.Ops[t.j].B
+			}
+			if dueLo <= o.Ops[i].A && o.Ops[i].B < dueHi+guard {
+				return []problem{{"ambiguous", "ambiguous", fmt.Sprintf("operation %d (%s at [%d,%d] us) lies within %d us of the deadline [%d,%d] us set by operation %d", i, o.Ops[i].Name, o.Ops[i].B, o.Ops[i].A, guard, dueLo, dueHi, t.j)}}
+			}
+		}
+	}
+	lo, e1 := modelRun(m, o, false, margin)
 	if e1 != "" {
 		return []problem{{"infra", "model", e1}}
 	}
-	hi, e2 := modelRun(m, o, true)
+	hi, e2 := modelRun(m, o, true, margin)
 	if e2 != "" {
 		return []problem{{"infra", "model", e2}}
 	}
@@ -383,6 +429,15 @@ func compare(m *hx.Model, o *observation, margin int64) []problem {
 	for i := range o.Ops {
 		op := &o.Ops[i]
 		p := lo.ops[i][0]
+		racy := false // a deadline that is already due when it is set fires at once: the state right after the call is a race
+		for _, e := range op.Eff {
+			if e.Kind == "set" && e.Lo <= op.A+guard {
+				racy = true
+			}
+		}
+		if racy {
+			continue
+		}
 		mclosed := p.cause != "open"
 		if mclosed != op.SeenClosed {
 			ps = append(ps, problem{"mismatch", "deadline-model", fmt.Sprintf("after operation %d (%s at [%d,%d] us): model closed=%v (%s at %d us), implementation closed=%v", i, op.Name, op.B, op.A, mclosed, p.cause, p.t, op.SeenClosed)})
